@@ -6,7 +6,8 @@ CONSTANTS Depth,        \* maximal number of calls in a behaviour
           LeafReadOnly, \* TRUE: a call that left the container (content, lazy flags, row counts) untouched
                         \* is not continued - its futures are those of its predecessor (quick tier)
           BlockLits, CatLits, ColLits, FileLits,   \* literal ids used as arguments
-          BKeys, CKeys, KKeys                       \* keys tried at the three levels
+          BKeys, CKeys, KKeys,                      \* keys tried at the three levels
+          EqOps                                     \* <<kind, provenance>> of the derived operands of equality calls
 
 VARIABLES fl,      \* "text" | "binary", fixed in Init
           f,       \* the lazy container
@@ -24,15 +25,21 @@ AllCalls ==
   \cup {<<"FSetWrong", <<b>>>> : b \in {PB}}
   \cup {<<op, <<b>>>> : op \in {"FGet", "FDel", "FContains"}, b \in BKeys}
   \cup {<<op, <<>>>> : op \in {"FIter", "FLen", "Reload", "Peek"}}
-  \cup {<<"FEq", <<l>>>> : l \in EqSelfKinds \cup FileLits}
+  \cup {<<"FEq", <<p[1], p[2]>>>> : p \in EqOps} \cup {<<"FEq", <<l, "fresh">>>> : l \in FileLits}
   \cup {<<"BSet", <<c, l>>>> : c \in CKeys, l \in CatLits}
   \cup {<<op, <<c>>>> : op \in {"BGet", "BDel", "BContains"}, c \in CKeys}
   \cup {<<op, <<>>>> : op \in {"BIter", "BLen"}}
-  \cup {<<"BEq", <<l>>>> : l \in EqSelfKinds \cup BlockLits}
+  \cup {<<"BEq", <<p[1], p[2]>>>> : p \in EqOps} \cup {<<"BEq", <<l, "fresh">>>> : l \in BlockLits}
   \cup {<<"CSet", <<k, v, fm>>>> : k \in KKeys, v \in ColLits, fm \in ColForms}
   \cup {<<op, <<k>>>> : op \in {"CGet", "CDel", "CContains"}, k \in KKeys}
   \cup {<<op, <<>>>> : op \in {"CIter", "CLen"}}
-  \cup {<<"CEq", <<l>>>> : l \in EqSelfKinds \cup CatLits}
+  \cup {<<"CEq", <<p[1], p[2]>>>> : p \in EqOps} \cup {<<"CEq", <<l, "fresh">>>> : l \in CatLits}
+
+\* every derived operand freshly built; written and read back (untouched / everything accessed) the
+\* copy, the deeply re-ordered mapping (equal content, other serialised form) and the key-swapped one
+EqOpsQuick == (EqSelfKinds \X {"fresh"}) \cup ({"self", "deeprev", "revkeys"} \X {"lazy"}) \cup ({"deeprev"} \X {"read"})
+EqOpsFull  == EqSelfKinds \X EqProvs
+ASSUME EqOps \subseteq EqSelfKinds \X EqProvs
 
 Call(c) ==
   LET r == Apply(fl, f, c[1], c[2])
